@@ -35,7 +35,7 @@ TRUSTED_BASE = [
 
 
 # which generated sections (translator/gen.py) each property's obligations read
-GEN_SECTIONS = {"C17": ["resolver"], "C18": ["mapping"], "C19": ["discovery"], "C20": ["w3c"]}
+GEN_SECTIONS = {"C17": ["resolver"], "C18": ["mapping", "optimize"], "C19": ["discovery"], "C20": ["w3c"]}
 
 
 BATCH = int(os.environ.get("VERIF_BATCH", "6000"))
